@@ -3,7 +3,8 @@
 Mode H (explicit-state search over operation histories of the real code):
   1. per stateful family, BFS over the family's operation alphabet to closure of the canonical interpreter state
      (module globals, class attributes, function defaults, live objects) -- every state is a live forked process;
-  2. across families, every ordered pair of compound operations (new+call) of the whole alphabet;
+  2. across families, every ordered pair (A, B) of compound operations (new+call) of the whole alphabet, in the two
+     interleavings [new A, call A, new B, call B] and [new B, new A, call A, call B];
   3. batch independence: all non-empty subsets of a 5-point base set, all orderings of a 4-subset, a duplicate, a
      superset with a far point.
 Oracle (differential, no expected values): every call observes bit-for-bit what the same call observes when made first
@@ -304,6 +305,20 @@ def run_pairs(task):
                     _slot_cls([], B["ops"][0]), "pair:%s-after-other-solver-differs-from-fresh" % which,
                     {"first": A["ops"][0]["slot"], "second": B["ops"][0]["slot"]},
                     diff.get("max_rel_diff", 1.0), {"diff": diff, "first_ops": A["ops"], "second_ops": B["ops"]}))
+        # interleaved form: B is constructed first, A runs completely in between, then B is called
+        #   [new B, new A, call A, call B]   (catches state that B's constructor leaves for its call and A clobbers)
+        out2 = history.run_in_fork(opsmod, [opsB[0]] + opsA + [opsB[1]])
+        res["evals"] += 2
+        res["transitions"] += len(out2)
+        res["states"] += 1
+        obs2 = out2[-1]["obs"]
+        dg.add("sandwich", i, obs2.get("digest"))
+        diff2 = compare(obs2, refB[1])
+        if diff2 is not None:
+            res["violations"].append(_viol(
+                _slot_cls([], B["ops"][0]), "pair:call-with-other-solver-interleaved-differs-from-fresh",
+                {"first": A["ops"][0]["slot"], "second": B["ops"][0]["slot"]},
+                diff2.get("max_rel_diff", 1.0), {"diff": diff2, "first_ops": A["ops"], "second_ops": B["ops"]}))
         shared_changed = [c for o in out[:2] for c in o["changed"] if not c.startswith("live:")]
         if obsB_call.get("kind") == "val":
             res["nontrivial"].append("pair|%s|%s" % (A["ops"][0]["slot"], B["ops"][0]["slot"]))
